@@ -19,7 +19,7 @@ def build(chk, ip, runner):
     chk.level = 'other'
     chk.explanation = ('the level filter OutputBuffer._print is proved to append exactly one line, or nothing when the level is below the minimum; '
                        'get_level (the ranks), the public wrappers good/warn/fail/info/head/sep/v/d (level each prints at; batch only removes headings and separators; '
-                       'verbose/debug only add info lines, still subject to the level filter) and flush_section (section lines appended in order) are proved against the same contract; '
+                       'verbose/debug only add info lines, still subject to the level filter) and flush_section (section lines appended in order) and get_buffer (newline-join of buffer + pending section, both emptied) are proved against the same contract; '
                        'independence of status/findings from the options is the frame of C02\'s contracts (they do not mention the option fields) and is '
                        'additionally checked at run time over a bounded family')
     chk.assumptions = ['json library (well-formedness is checked at run time only)']
